@@ -12,6 +12,7 @@ import (
 // ObserveHistory records the client-visible history in the observer component:
 //   i:<client>:<idx>:<type>:<key>:<value>   when AClient takes a request from reqCh (invocation)
 //   r:<client>:<idx>:<ok>:<value>           when AClient writes the response to respCh
+//   s:<client>:<idx>                        each time AClient transmits the request to a server
 func ObserveHistory(pre *ss.State, p int, ev *trace.Event, post *ss.State) string {
 	obs := pre.Obs
 	switch pre.PC(p) {
@@ -22,6 +23,16 @@ func ObserveHistory(pre *ss.State, p int, ev *trace.Event, post *ss.State) strin
 			val = req.ApplyFunction(str("value")).AsString()
 		}
 		obs += fmt.Sprintf("i:%d:%d:%s:%s:%s;", p, post.Locals[p]["AClient.reqIdx"].AsNumber(), req.ApplyFunction(str("type")).AsString(), req.ApplyFunction(str("key")).AsString(), val)
+	case "AClient.sndReq":
+		// every (re)transmission of the current request is recorded: a retransmitted put is what the
+		// known duplicate-application finding is about (see CheckHistory)
+		if ev != nil {
+			for _, el := range ev.Elements {
+				if w, ok := el.(trace.WriteElement); ok && w.Name == "net" {
+					obs += fmt.Sprintf("s:%d:%d;", p, post.Locals[p]["AClient.reqIdx"].AsNumber())
+				}
+			}
+		}
 	case "AClient.rcvResp":
 		if ev == nil {
 			return obs
@@ -95,10 +106,53 @@ var kvModel = porcupine.Model{
 // Operations without a response are pending: they may take effect at any later time or never
 // (a pending put is given an infinite return time; a put that never takes effect is covered by
 // also checking the history without it).
-func CheckHistory(obs string) (bool, string) {
+//
+// Result: ok; or (false, "retried-put-applied-twice", ...) when the history is not linearizable
+// but becomes linearizable once every *retransmitted* put is allowed to take effect a second
+// time at some point after its retransmission (the recorded known finding: the server appends
+// every client request it receives, without de-duplicating retries); or (false, "", ...) for any
+// other anomaly.
+func CheckHistory(obs string) (ok bool, class string, why string) {
+	ops, sends, bad := parseHistory(obs)
+	if bad != "" {
+		return false, "", bad
+	}
+	if linearizable(ops, nil) {
+		return true, "", ""
+	}
+	var ghosts []porcupine.Operation
+	for i := range ops {
+		in := ops[i].Input.(kvIn)
+		if !in.put {
+			continue
+		}
+		for k, t := range sends[i] {
+			if k == 0 {
+				continue // the first transmission is the operation itself
+			}
+			ghosts = append(ghosts, porcupine.Operation{ClientId: ops[i].ClientId, Input: in, Call: t, Output: kvOut{}, Return: 1 << 40})
+		}
+	}
+	if len(ghosts) > 0 && len(ghosts) <= 6 {
+		for mask := 1; mask < 1<<len(ghosts); mask++ {
+			var g []porcupine.Operation
+			for b := range ghosts {
+				if mask&(1<<b) != 0 {
+					g = append(g, ghosts[b])
+				}
+			}
+			if linearizable(ops, g) {
+				return false, "retried-put-applied-twice", "a put that the client retransmitted took effect a second time after a later acknowledged put: " + obs
+			}
+		}
+	}
+	return false, "", "no linearization of the acknowledged operations: " + obs
+}
+
+func parseHistory(obs string) (ops []porcupine.Operation, sends map[int][]int64, bad string) {
 	type opk struct{ c, idx int }
-	var ops []porcupine.Operation
 	pos := map[opk]int{}
+	sends = map[int][]int64{}
 	t := int64(0)
 	for _, e := range strings.Split(strings.TrimSuffix(obs, ";"), ";") {
 		if e == "" {
@@ -109,18 +163,27 @@ func CheckHistory(obs string) (bool, string) {
 		var c, idx int
 		fmt.Sscan(f[1], &c)
 		fmt.Sscan(f[2], &idx)
-		if f[0] == "i" {
+		switch f[0] {
+		case "i":
 			pos[opk{c, idx}] = len(ops)
 			ops = append(ops, porcupine.Operation{ClientId: c, Input: kvIn{put: f[3] == "put", key: f[4], val: f[5]}, Call: t, Output: kvOut{}, Return: -1})
-		} else {
+		case "s":
+			if i, ok := pos[opk{c, idx}]; ok {
+				sends[i] = append(sends[i], t)
+			}
+		case "r":
 			i, ok := pos[opk{c, idx}]
 			if !ok || ops[i].Return != -1 {
-				return false, "response without a matching pending invocation: " + e
+				return nil, nil, "response without a matching pending invocation: " + e
 			}
 			ops[i].Return = t
 			ops[i].Output = kvOut{known: true, ok: f[3] == "true", val: f[4]}
 		}
 	}
+	return ops, sends, ""
+}
+
+func linearizable(ops []porcupine.Operation, extra []porcupine.Operation) bool {
 	var pendingPuts []int
 	var base []porcupine.Operation
 	for i := range ops {
@@ -132,6 +195,7 @@ func CheckHistory(obs string) (bool, string) {
 		}
 		base = append(base, ops[i])
 	}
+	base = append(base, extra...)
 	// every subset of pending puts may have taken effect
 	for mask := 0; mask < 1<<len(pendingPuts); mask++ {
 		h := append([]porcupine.Operation{}, base...)
@@ -143,8 +207,8 @@ func CheckHistory(obs string) (bool, string) {
 			}
 		}
 		if porcupine.CheckOperations(kvModel, h) {
-			return true, ""
+			return true
 		}
 	}
-	return false, "no linearization of the acknowledged operations: " + obs
+	return false
 }
